@@ -12,4 +12,9 @@ let handle (args : t list) : t =
         let vals = model_values g p false n in
         L [ L [sorted_strs (model_strings g p n); of_int (int_of_nat (model_count g p n)); sorted_strs (model_nodes g p n); of_bool (mixed_final vals)];
             L [sorted_strs (spec_strings g p n); of_int (int_of_nat (spec_count g p n)); sorted_strs (spec_nodes g p n)] ]) ns)
+  (* (rule-lines <path> "v") -> (clauses-of-the-values-rule clauses-of-the-nodes-rule), a clause = ("line" ...)   PathGen.path_rule_lines *)
+  | [A "rule-lines"; p; v] ->
+      let p = path p and v = sl v in
+      let enc cls = L (List.map (fun c -> L (List.map of_cl c)) cls) in
+      L [enc (path_rule_lines p false v); enc (path_rule_lines p true v)]
   | _ -> raise (Parse_error "c02 op")
